@@ -435,12 +435,27 @@ CHECKS['DEV14'] = c_dev14
 NUMERIC_NOTE = ' The numerically quantified clauses of the property (tolerances, behaviour for all angles) are not decided.'
 
 
-def _scope_rules(run, pid, r1=True, r2=True, r9=True):
+def _scope_rules(run, pid, r1=True, r2=True, r9=True, generic=True):
     fs = scope(run, pid)
     if r2:
         r2_none.run_r2(run, fs)
     if r1:
         r1_resolve.run_r1(run, fs)
+    if generic:
+        # function-local rules that state a necessary condition of ANY law about the functions in scope: an angle reaches its
+        # kernel converted exactly once on every path (a law in degrees fails otherwise), a value stored without the membership
+        # check comes from a closed producer, a self-application forwards its options, the shape typestate of the branches
+        seen = set(run.extra.setdefault('_generic_done', []))
+        for f in fs:
+            if f.key in seen:
+                continue
+            if any(p in ('unit', 'units') for p in f.allparams):
+                r10_args.check_unit_typestate(run, f)
+        r10_args.check_recursion_options(run, [f for f in fs if f.key not in seen])
+        if not r1:
+            r20_shapes.check_shapes(run, [f for f in fs if f.key not in seen])
+        r15_closed.check_unchecked_sites(run, keys={f.key for f in fs if f.key not in seen})
+        run.extra['_generic_done'] = sorted(seen | {f.key for f in fs})
     if r9:
         # operators and functions in the scope of the property must not modify their operands: an in-place shortcut makes
         # every law that reuses an operand (X**-1 * X, (X*Y)*p, q.interp(..) twice) fail
